@@ -876,7 +876,7 @@ def c11(ix: Index) -> None:
         res = next((q for q in fin.get(i['ev'], {}).get('results', []) if q['hid'] == f"B{i['bus']}.h{i['h']}"), None)
         if x['out'] == 'raise':
             ix.C['c11_raises'] += 1
-            if res is None or res['status'] != 'error' or not (res['eid'] == x['eid'] or (x['et'] == 'TimeoutError' and res['err'] == 'TimeoutError')):
+            if res is None or res['status'] != 'error' or not (res['eid'] == x['eid'] or (x['et'] in ('TimeoutError', 'CancelledError') and res['err'] == x['et'])):
                 ix.v('C11', 'raise-not-captured', None, ev=i['ev'], h=i['h'], result=res, raised=x['et'])
     for r in ix.R:
         if r['k'] == 'retexc' and isinstance(r['by'], int):
